@@ -96,6 +96,12 @@ func validateJSONPatches(patches []byte) error {
 }
 
 func validateJSONPointer(pointer string) error {
+	// RFC 6901: a JSON pointer is empty or starts with '/'. The patch library ignores everything before the
+	// first '/', so a pointer such as "x/publicKey" would address a protected member.
+	if pointer != "" && !strings.HasPrefix(pointer, "/") {
+		return fmt.Errorf("%s: invalid JSON pointer: %s", patch.JSONPatch, pointer)
+	}
+
 	if strings.HasPrefix(pointer, "/"+document.ServiceProperty) {
 		return fmt.Errorf("%s: cannot modify services", patch.JSONPatch)
 	}
